@@ -143,7 +143,7 @@ def check_requery_distinct(t1: int, t2: int, grow: bool, n1: bool, n2: bool) -> 
     """
     pre: 0 <= t1 <= 2**32 - 1 and 0 <= t2 <= 2**32 - 1
     post: _ == True
-    timeout: 240
+    timeout: 600
     """
     return _second_query("distinct", t1, t2, grow, n1, n2)
 
@@ -152,7 +152,7 @@ def check_requery_nul_alias(t1: int, t2: int, grow: bool, n1: bool, n2: bool) ->
     """
     pre: 0 <= t1 <= 2**32 - 1 and 0 <= t2 <= 2**32 - 1
     post: _ == True
-    timeout: 240
+    timeout: 600
     """
     return _second_query("nul_alias", t1, t2, grow, n1, n2)
 
